@@ -28,7 +28,7 @@ func (fr *Frame) call(in ssa.Instruction, c *ssa.CallCommon, st *State, pc Term)
 		recv := fr.val(c.Value)
 		args = append(args, recv)
 		argTypes = append(argTypes, c.Value.Type())
-		calleeName = ifaceMethodName(c)
+		calleeName = vc.specs.ifaceName(c)
 	} else {
 		if ci, ok := fr.closures[c.Value]; ok {
 			closure = ci
@@ -38,6 +38,9 @@ func (fr *Frame) call(in ssa.Instruction, c *ssa.CallCommon, st *State, pc Term)
 		}
 		if callee != nil {
 			calleeName = funcName(callee)
+		} else if n := fieldFuncName(c.Value); n != "" {
+			// call through a function-typed struct field: "pkg.Type.field"
+			calleeName = n
 		}
 	}
 	for _, a := range c.Args {
@@ -131,6 +134,42 @@ func (fr *Frame) mayRunLocalClosure(c *ssa.CallCommon) bool {
 		}
 	}
 	return false
+}
+
+// fieldFuncName names a function value loaded from a struct field.
+func fieldFuncName(v ssa.Value) string {
+	u, ok := v.(*ssa.UnOp)
+	if !ok {
+		return ""
+	}
+	fa, ok := u.X.(*ssa.FieldAddr)
+	if !ok {
+		return ""
+	}
+	st := derefType(fa.X.Type())
+	s, ok := st.Underlying().(*types.Struct)
+	if !ok {
+		return ""
+	}
+	return typeKey(st) + "." + s.Field(fa.Field).Name()
+}
+
+// ifaceName picks the contract name for an interface method call: the static
+// interface type of the receiver first (hash.Hash.Write), then the interface
+// declaring the method (io.Writer.Write).
+func (db *SpecDB) ifaceName(c *ssa.CallCommon) string {
+	var first string
+	if n, ok := c.Value.Type().(*types.Named); ok && n.Obj().Pkg() != nil {
+		first = shortPkg(n.Obj().Pkg().Path()) + "." + n.Obj().Name() + "." + c.Method.Name()
+		if db.byName[first] != nil {
+			return first
+		}
+	}
+	decl := ifaceMethodName(c)
+	if db.byName[decl] != nil || first == "" {
+		return decl
+	}
+	return first
 }
 
 func ifaceMethodName(c *ssa.CallCommon) string {
